@@ -144,6 +144,12 @@ func main() {
 		return
 	}
 
+	if os.Getenv("VERIF_C06_FAMILY") == "large" { // debugging aid: the large-batch family alone
+		runLargeBatchFamily(r)
+		finish(r, 0)
+		return
+	}
+
 	// 1. Deterministic witnesses of the known shapes (replayed first so that the
 	// finding lines appear whenever the defects exist).
 	for _, w := range ndblab.Witnesses() {
@@ -210,6 +216,7 @@ func main() {
 	// 3. Concurrent part.
 	runConcurrent(r)
 	runCommitVsFinalizeFamily(r)
+	runLargeBatchFamily(r)
 
 	// 4. Race detector reports.
 	reportRaces(r)
